@@ -171,6 +171,22 @@ func (fr *frame) callFunc(x ssa.Instruction, callee *ssa.Function, args, free []
 		fr.lockOp(full, args, st, x)
 		return &Val{Ty: callee.Signature.Results()}
 	}
+	if strings.Contains(full, "syncutil.Pool") && (strings.HasSuffix(callee.Name(), "Get") || strings.HasSuffix(callee.Name(), "Put")) {
+		// pooled objects: exclusively owned between Get and Put (ghost ownership, see locks.go)
+		if strings.HasSuffix(callee.Name(), "Put") && len(args) >= 2 {
+			fr.poolPut(args[1], st, x)
+		}
+		var v *Val
+		if fc := fr.w.contractFor(callee); fc != nil {
+			v = fr.applyContract(x, callee.Signature, fc, paramNames(callee), relName(callee), args, st, name)
+		} else {
+			v = fr.havocCall(x, callee.Signature, "call of "+relName(callee), st, name)
+		}
+		if strings.HasSuffix(callee.Name(), "Get") {
+			fr.poolGet(v, st)
+		}
+		return v
+	}
 	fc := fr.w.contractFor(callee)
 	anon := callee.Parent() != nil
 	if fr.w.inRepo(callee) && !anon && !(fc != nil && fc.Inline) && !fr.isDiscovery {
